@@ -58,6 +58,10 @@ type Conn struct {
 	die context.CancelFunc
 	wg  sync.WaitGroup
 
+	// Incremented (under mu) for every established connection, so that the
+	// goroutines of a finished connection cannot tear down its successor.
+	epoch uint64
+
 	// Internal counters for flood protection
 	badness  time.Duration
 	lastsent time.Time
@@ -431,6 +435,7 @@ func (conn *Conn) internalConnect(ctx context.Context) error {
 		conn.sock = s
 	}
 
+	conn.epoch++
 	conn.postConnect(ctx, true)
 	conn.connected = true
 	return nil
@@ -486,6 +491,7 @@ func hasPort(s string) bool {
 // It shuttles data from the output channel to write(), and is killed
 // when the context is cancelled.
 func (conn *Conn) send(ctx context.Context) {
+	epoch := conn.epoch
 	for {
 		select {
 		case line := <-conn.out:
@@ -493,7 +499,7 @@ func (conn *Conn) send(ctx context.Context) {
 				logging.Error("irc.send(): %s", err.Error())
 				// We can't defer this, because Close() waits for it.
 				conn.wg.Done()
-				conn.Close()
+				conn.closeEpoch(epoch)
 				return
 			}
 		case <-ctx.Done():
@@ -508,6 +514,7 @@ func (conn *Conn) send(ctx context.Context) {
 // It receives "\r\n" terminated lines from the server, parses them into
 // Lines, and sends them to the input channel.
 func (conn *Conn) recv() {
+	epoch := conn.epoch
 	for {
 		s, err := conn.io.ReadString('\n')
 		if err != nil {
@@ -516,7 +523,7 @@ func (conn *Conn) recv() {
 			}
 			// We can't defer this, because Close() waits for it.
 			conn.wg.Done()
-			conn.Close()
+			conn.closeEpoch(epoch)
 			return
 		}
 		s = strings.Trim(s, "\r\n")
@@ -552,6 +559,7 @@ func (conn *Conn) ping(ctx context.Context) {
 // It pulls Lines from the input channel and dispatches them to any
 // handlers that have been registered for that IRC verb.
 func (conn *Conn) runLoop(ctx context.Context) {
+	epoch := conn.epoch
 	for {
 		select {
 		case line := <-conn.in:
@@ -562,7 +570,7 @@ func (conn *Conn) runLoop(ctx context.Context) {
 
 			// We can't defer this, because Close() waits for it.
 			conn.wg.Done()
-			conn.Close()
+			conn.closeEpoch(epoch)
 			return
 		}
 	}
@@ -616,10 +624,22 @@ func (conn *Conn) rateLimit(chars int) time.Duration {
 // the sending or receiving goroutines encounter an error.
 // It may also be used to forcibly shut down the connection to the server.
 func (conn *Conn) Close() error {
+	return conn.close(0, false)
+}
+
+// closeEpoch is what the connection's own goroutines call on their way out.
+// It closes the connection only if it is still the one they belonged to:
+// by the time a goroutine of a finished connection gets here, the client
+// may already have reconnected.
+func (conn *Conn) closeEpoch(epoch uint64) error {
+	return conn.close(epoch, true)
+}
+
+func (conn *Conn) close(epoch uint64, check bool) error {
 	// Guard against double-call of Close() if we get an error in send()
 	// as calling sock.Close() will cause recv() to receive EOF in readstring()
 	conn.mu.Lock()
-	if !conn.connected {
+	if !conn.connected || (check && epoch != conn.epoch) {
 		conn.mu.Unlock()
 		return nil
 	}
